@@ -325,7 +325,7 @@ func genC02(dir, tier string, seed int64) {
 	hist := goOnlyResult{Stream: "C02_histories", Rule: "single-node models from every fixture, and the same node reading every tensor through an identity-like node (a one-input Concat or an Expand to the tensor's own shape) (trailing inputs as initializers: weights, biases, initial states, axes, shapes; each also in the variant where those initializers are declared graph inputs, i.e. defaults that some calls of the history override with other values and other calls leave out) + two-node models (LSTM / GRU with default and with explicit activations, two Conv nodes whose dilated kernels have one shape; both orders) + the loadable sample models: histories of 2..6 Runs on ONE Model (same input objects re-used, the same objects refilled in place with other contents -- inputs and overriding weights alike --, fresh copies, interleaved failing calls: missing input, wrong rank); every Run compared bit for bit with the same call on a freshly loaded Model AND with the first result ever observed for these input values; caller tensors and Model parameters (through the verif hook) snapshotted before/after every Run", Violations: []string{}}
 	nHist := 2
 	if tier == "thorough" {
-		nHist = 40
+		nHist = 120
 	}
 	var models []*fxModel
 	for _, n := range names {
